@@ -678,7 +678,7 @@ func (x *Exec) makeInterface(st *State, fr *Frame, in *ssa.MakeInterface) Val {
 	s := x.term(v)
 	i := x.S.Define("ifc", "Int", "("+mk+" "+s+")")
 	x.assume(st, And("(> "+i+" 0)", "(= (itype "+i+") "+tag+")", "(= ("+un+" "+i+") "+s+")"))
-	return Val{S: i, T: in.Type()}
+	return Val{S: i, T: in.Type(), Ifc: &ifcInfo{conc: v, ctype: ct}}
 }
 
 func (x *Exec) typeAssert(st *State, fr *Frame, in *ssa.TypeAssert) Val {
